@@ -210,6 +210,10 @@ func qAtomText(a *qAtom) string {
 		return fmt.Sprintf(`%s:"%s"`, a.K, a.Tok)
 	case "ftime", "ltime":
 		return tm(a.K)
+	case "fteq":
+		return fmt.Sprintf(`ftime:"%s"`, qTime(a.N).Format("2006-01-02 150405"))
+	case "protoself":
+		return "protocol:@protocol@"
 	case "dur": // the stream lasts at least / less than N hours (stream times are whole hours: thresholds in between)
 		if a.Tok == "ge" {
 			return fmt.Sprintf("ltime:@ftime@+%dm:", a.N*60-30)
